@@ -51,7 +51,7 @@ def run(ctx):
         # every field mismatch is an error: the comparison loop returns Err on `!=`
         ne = [(fb.path, bi) for fb in lib.family(F, lv.path) for bi, t in fb.calls() if call_matches(t, ['std::cmp::PartialEq::ne', 'std::cmp::PartialEq::eq', 're:ColumnOptions as std::cmp::PartialEq>::(eq|ne)$'])]
         ctx.ob('1i options-compared', 'K1-must-pass', lv.path, 'stored and requested column options are compared with ColumnOptions equality', len(ne) >= 1, '')
-        lens = [bi for bi in lv.normal_blocks() for s in lv.blocks[bi]['s'] if s['k'] == 'assign' and s['r']['k'] == 'bin' and s['r']['op'] in ('Ne', 'Eq')]
+        lens = [bi for fb in lib.family(F, lv.path) for bi in fb.normal_blocks() for s in fb.blocks[bi]['s'] if s['k'] == 'assign' and s['r']['k'] == 'bin' and s['r']['op'] in ('Ne', 'Eq')]
         ctx.ob('1j column-count-compared', 'K1-must-pass', lv.path, 'the number of columns is compared', len(lens) >= 1, '')
     # ------------------------------------------------ 2. who writes metadata / creates directories
     wr = sorted(F.direct_callers_of('options::Options::write_metadata_file_with_version'))
